@@ -27,7 +27,7 @@ theorem rv_step_val (cfg : Cfg) (s s' : State f) (l : Label) (hw : WF s) (hr : R
   obtain ⟨w1, w2, w3, w4, w5, w6⟩ := hw
   obtain ⟨r1, r2, r3⟩ := hr
   clear w4 w5 w6 r3
-  cases l <;> step_inv h
+  cases l <;> rfn_step_inv h
   all_goals (intro c' r' hv; have h1 := r1 c' r'; have h2 := r2 c' r'; have h3 := w3 c'; have h4 := w2 c'
              clear r1 r2 w3 w2; rv_tac)
 
@@ -37,7 +37,7 @@ theorem rv_step_chan (cfg : Cfg) (s s' : State f) (l : Label) (hw : WF s) (hr : 
   obtain ⟨w1, w2, w3, w4, w5, w6⟩ := hw
   obtain ⟨r1, r2, r3⟩ := hr
   clear w4 w5 w6 r1
-  cases l <;> step_inv h
+  cases l <;> rfn_step_inv h
   all_goals (intro c' r' hlt hv; have h2 := r2 c' r'; have h3 := w3 c'; have h4 := w2 c'; rv_tac)
 
 theorem rv_step_rep (cfg : Cfg) (s s' : State f) (l : Label) (hw : WF s) (hr : RV s)
@@ -46,7 +46,7 @@ theorem rv_step_rep (cfg : Cfg) (s s' : State f) (l : Label) (hw : WF s) (hr : R
   obtain ⟨w1, w2, w3, w4, w5, w6⟩ := hw
   obtain ⟨r1, r2, r3⟩ := hr
   clear w4 w5 w6 r1 r2
-  cases l <;> step_inv h
+  cases l <;> rfn_step_inv h
   all_goals (intro c' r' hv; have h2 := r3 c' r'; have h3 := w3 c'; clear r3 w3 w2; rv_tac)
 
 theorem rv_step (cfg : Cfg) (s s' : State f) (l : Label) (hw : WF s) (hr : RV s)
